@@ -217,4 +217,21 @@ example : primAtom [115, 101, 99, 112, 50, 53, 54, 107, 49, 95, 118, 101, 114, 1
 example : implemented 1 [62] = false ∧ implemented 2 [62] = true := by decide   -- keccak256 needs version 2
 example : kwPairs.length = 49 ∧ prims.length = 49 := by decide
 
+/-- both evaluators give an opcode the SAME operator: every arm of `OriginalDialect::op` (the
+    version-0 evaluator) dispatches to the clvmr function that `ChiaDialect::op` (versions 1, 2)
+    dispatches the same opcode to — so a name means one operation whichever runner version is used.
+    (Function names are compared as the bytes of the Rust identifiers, re-read on every run.) -/
+theorem dispatch_same_operator (op : Nat) (fn : List Nat) (h : (op, fn) ∈ origFns) : (op, fn) ∈ chiaFns := by
+  have hall : origFns.all (fun p => chiaFns.contains p) = true := by decide +kernel
+  rw [List.all_eq_true] at hall
+  have := hall (op, fn) h
+  simpa using this
+
+/-- the function tables list exactly the dispatched opcodes (they are the same arms). -/
+theorem dispatch_fn_tables_cover : origFns.map (·.1) = origOps ∧ chiaFns.map (·.1) = chiaOps.map (·.1) := by
+  decide +kernel
+
+-- non-vacuity: opcode 23 (lsh) is dispatched by both evaluators
+example : (23, [111, 112, 95, 108, 115, 104]) ∈ origFns := by decide +kernel
+
 end C20
